@@ -309,7 +309,7 @@ def run_hybrid(c, rec):
             if kind in ("MH", "CWMH"):
                 kw["scale"] = 0.2 * tm
             if kind == "MALA":
-                kw["scale"] = 0.01 * tm
+                kw["scale"] = 0.01      # (the Langevin proposal test needs the gradient term to be visible: no tiny moves here)
             if kind == "PCN":
                 kw["scale"] = 0.3 * tm
             s = cls(**kw)
@@ -479,7 +479,7 @@ def run_invariance(c, rec):
 
 
 SUBCHECKS = [
-    SubCheck("C09/hybrid_gibbs_history", run_hybrid, strategy=gibbs_cases, n={"quick": 300, "thorough": 6000}, shards={"quick": 12, "thorough": 16}, shrink=False),
+    SubCheck("C09/hybrid_gibbs_history", run_hybrid, strategy=gibbs_cases, n={"quick": 450, "thorough": 6000}, shards={"quick": 12, "thorough": 16}, shrink=False),
     SubCheck("C09/legacy_gibbs_history", run_legacy, strategy=gibbs_cases, n={"quick": 200, "thorough": 4000}, shards={"quick": 8, "thorough": 16}, shrink=False),
     SubCheck("C09/invariance", run_invariance, strategy=inv_cases, n={"quick": 16, "thorough": 64}, shards={"quick": 4, "thorough": 16}, shrink=False),
 ]
